@@ -39,11 +39,12 @@ def r19a(ck, fb):
                     'set_valid_last_id(last_id); ConfigCmd::InnerSetLastId calls set_last_id; all three dispatch copies forward the fields')
     sc = ck.body(CA + 'set_config', 'R19a')
     if sc:
-        sv = util.mut_calls_on_field(sc, 'sequence', re.escape(SU + 'set_valid_last_id') + '$')
+        # deep: a private helper of the actor that makes the call counts as the site (its call in set_config is the proxy)
+        sv = util.mut_calls_on_field(sc, 'sequence', re.escape(SU + 'set_valid_last_id') + '$', deep=2)
         ck.require(len(sv) >= 1, 'R19a', 'set_config:set_valid_last_id', sc.where(), 'set_config no longer raises the sequence to the replicated high-water mark')
         for s in sv:
             t = Taint(sc, place_src=field_place_src('history_table_id'))
-            ck.require(t.op_tainted(s.args[1]), 'R19a', 'set_config:mark<-history_table_id', s.where(), 'the mark is not param.history_table_id')
+            ck.require(any(t.op_tainted(a) for a in s.args[1:]), 'R19a', 'set_config:mark<-history_table_id', s.where(), 'the mark is not param.history_table_id')
             # it happens before the unchanged-content early return: it dominates every return except via its own None-branch
             first_cache = [x for x in sc.calls(r'HashMap::<K, V, S, A>::get_mut$')]
             ck.require(bool(first_cache) and all(s.bb in cfg.reach_to(sc, [x.bb]) for x in first_cache), 'R19a', 'set_config:mark-first', s.where(),
@@ -57,12 +58,12 @@ def r19a(ck, fb):
             for f in ('history_id', 'history_table_id', 'value', 'op_time'):
                 c = c07.canon(h, rv['ops'][rv['fields'].index(f)])
                 ck.require(c.endswith('.' + f), 'R19a', 'ConfigAdd:%s' % f, h.where(i), 'SetConfigParam.%s <- %s (expected the same-named field of ConfigAdd)' % (f, c), c)
-        sv = util.mut_calls_on_field(h, 'sequence', re.escape(SU + 'set_valid_last_id') + '$')
+        sv = util.mut_calls_on_field(h, 'sequence', re.escape(SU + 'set_valid_last_id') + '$', deep=2)
         ok = False
         for s in sv:
             if ('rnacos::config::model::ConfigRaftCmd', 'SetFullValue') in util.variant_guards(h, s.bb):
                 t = Taint(h, place_src=field_place_src('last_id'))
-                ok = t.op_tainted(s.args[1])
+                ok = any(t.op_tainted(a) for a in s.args[1:])
         ck.require(ok, 'R19a', 'SetFullValue:set_valid_last_id(last_id)', h.where(), 'a full-value import does not raise the sequence to its last_id')
     c = ck.body(CMD_H, 'R19a')
     if c:
